@@ -7,6 +7,9 @@ Import ListNotations.
 Lemma iter_shift {A} (f : A -> A) n x : Nat.iter n f (f x) = Nat.iter (S n) f x.
 Proof. induction n as [|n IH]; [reflexivity|]. change (f (Nat.iter n f (f x)) = f (Nat.iter (S n) f x)). now rewrite IH. Qed.
 
+Lemma forallb_eq {A} (f g : A -> bool) l : (forall x, In x l -> f x = g x) -> forallb f l = forallb g l.
+Proof. induction l as [|x l IH]; cbn [forallb]; intros H; auto. rewrite H, IH; auto; [intros; apply H|]; now (right + left). Qed.
+
 Lemma keep_some {A} (r : A) b : keep (Some r) b = Some r. Proof. reflexivity. Qed.
 
 (* ------------------------------------------------------------------ the driver loop, any state type *)
@@ -145,7 +148,7 @@ Proof.
   - apply Nat.leb_le in E. assert (n = S t) by lia. subst n. replace (S t - t) with 1 by lia.
     eexists; eexists; reflexivity.
   - apply Nat.leb_gt in E. destruct (IH (sweepf s) (S t)) as (ec & ev & H); try lia.
-    exists ec, ev. rewrite H. rewrite iter_shift. replace (S (n - S t)) with (n - t) by lia. reflexivity.
+    exists ec, ev. rewrite Ec in H. rewrite H. rewrite iter_shift. replace (S (n - S t)) with (n - t) by lia. reflexivity.
 Qed.
 (* a reason set in front of the loop: one sweep, that reason *)
 Lemma gen_loop_pre r : cb = None -> forall fuel nswp e evld s t, 1 <= fuel ->
@@ -257,7 +260,136 @@ Proof.
     destruct (Nat.eq_dec (S t0) t) as [E|E].
     - subst t. rewrite Hc. cbn [keep]. rewrite info_appr_some. eexists; eexists; reflexivity.
     - rewrite Hn by lia. unfold info_appr; cbn [keep]. destruct (Nat.leb_spec n (S t0)); [lia|].
-      apply IH; lia. }
+      rewrite <- Ec. apply IH; lia. }
   apply (G fuel O); lia.
+Qed.
+
+(* als_info: only nswp given: max(1, nswp) sweeps are executed and reported, stop reason 'nswp' *)
+Lemma als_nswp Sm Y0 n lamb skip fuel :
+  cb = None -> (negb skip && negb (check_slices Sm Y0) = false) -> idx_ok Sm Y0 = true -> Nat.max 1 n <= fuel ->
+  exists ec ev, als' Sm Y0 (Some n) None None lamb skip fuel
+                = Ok (sY (Nat.iter (Nat.max 1 n) (sweep K solve lamb Sm) (init_st K Sm Y0)),
+                      mk_info (Nat.max 1 n) SNswp ec ev).
+Proof.
+  intros Ec C1 C2 Hf. rewrite als_unfold by auto. destruct n as [|n].
+  - change (info_appr K None O (oopp K (o1 K)) (accv O Y0) (Some O) None None) with (Some SNswp).
+    apply gen_loop_pre; auto.
+  - assert (E0 : info_appr K None O (oopp K (o1 K)) (accv O Y0) (Some (S n)) None None = None) by reflexivity.
+    rewrite E0. replace (Nat.max 1 (S n)) with (S n - 0) in * by lia.
+    replace (mk_info (S n - 0) SNswp) with (@mk_info T (S n) SNswp) by (f_equal; lia).
+    apply gen_loop_nswp; auto; lia.
+Qed.
+
+(* als_wf: shape and ranks of the initial approximation *)
+Lemma als_wf Sm Y0 nswp e evld lamb skip fuel Y inf :
+  als' Sm Y0 nswp e evld lamb skip fuel = Ok (Y, inf) -> map dims Y = map dims Y0.
+Proof. intros H. apply als_spec in H. destruct H as (_ & _ & ->). apply iter_sweep_dims. Qed.
+
+(* als_missing_slice *)
+Lemma als_missing_rejected Sm Y0 nswp e evld lamb fuel :
+  check_slices Sm Y0 = false -> als' Sm Y0 nswp e evld lamb false fuel = Err ValueError.
+Proof. intros H. unfold als. rewrite H. reflexivity. Qed.
+Lemma check_slices_uncovered Sm (Y0 : list (core T)) k i :
+  k < length Y0 -> i < cn (nth k Y0 dcore) ->
+  (forall sm, In sm Sm -> nth k (sidx sm) O < cn (nth k Y0 dcore) /\ nth k (sidx sm) O <> i) ->
+  check_slices Sm Y0 = false.
+Proof.
+  intros Hk Hi Hs. unfold check_slices. apply not_true_is_false. intros H.
+  rewrite forallb_forall in H. specialize (H k). rewrite in_seq in H. specialize (H ltac:(lia)).
+  apply Nat.eqb_eq in H. set (n := cn (nth k Y0 dcore)) in *.
+  assert (ND : NoDup (i :: nodup Nat.eq_dec (column Sm k))).
+  { constructor; [|apply NoDup_nodup]. rewrite nodup_In. unfold column. rewrite in_map_iff.
+    intros (sm & E & Hin). destruct (Hs sm Hin) as [_ Hne]. congruence. }
+  assert (INC : incl (i :: nodup Nat.eq_dec (column Sm k)) (seq 0 n)).
+  { intros x [<-|Hx]; rewrite in_seq; [lia|]. rewrite nodup_In in Hx. unfold column in Hx.
+    rewrite in_map_iff in Hx. destruct Hx as (sm & <- & Hin). destruct (Hs sm Hin). lia. }
+  pose proof (NoDup_incl_length ND INC) as L. cbn [length] in L. rewrite seq_length in L. lia.
+Qed.
+(* and the validation accepts every training set that covers every slice *)
+Lemma check_slices_covered Sm (Y0 : list (core T)) :
+  (forall k, k < length Y0 -> forall sm, In sm Sm -> nth k (sidx sm) O < cn (nth k Y0 dcore)) ->
+  (forall k i, k < length Y0 -> i < cn (nth k Y0 dcore) -> exists sm, In sm Sm /\ nth k (sidx sm) O = i) ->
+  check_slices Sm Y0 = true.
+Proof.
+  intros Hr Hc. unfold check_slices. apply forallb_forall. intros k Hk. rewrite in_seq in Hk.
+  apply Nat.eqb_eq. rewrite <- (seq_length (cn (nth k Y0 dcore)) 0). apply Permutation_length.
+  apply NoDup_Permutation; [apply NoDup_nodup | apply seq_NoDup |].
+  intros x. rewrite nodup_In, in_seq. unfold column. rewrite in_map_iff. split.
+  - intros (sm & <- & Hin). specialize (Hr k ltac:(lia) sm Hin). lia.
+  - intros Hx. destruct (Hc k x ltac:(lia) ltac:(lia)) as (sm & Hin & E). exists sm. auto.
+Qed.
+
+(* the two validations depend on the shape of the cores only *)
+Lemma cn_nth_dims (Y Y' : list (core T)) k : map dims Y = map dims Y' -> cn (nth k Y dcore) = cn (nth k Y' dcore).
+Proof.
+  intros E. assert (D : dims (nth k Y dcore) = dims (nth k Y' dcore)).
+  { rewrite <- !(map_nth dims). now rewrite E. }
+  apply dims_eq in D. tauto.
+Qed.
+Lemma check_slices_dims Sm (Y Y' : list (core T)) : map dims Y = map dims Y' -> check_slices Sm Y = check_slices Sm Y'.
+Proof.
+  intros E. unfold check_slices. rewrite (dims_length _ _ E). apply forallb_eq. intros k _.
+  now rewrite (cn_nth_dims Y Y' k E).
+Qed.
+Lemma idx_ok_dims Sm (Y Y' : list (core T)) : map dims Y = map dims Y' -> idx_ok Sm Y = idx_ok Sm Y'.
+Proof.
+  intros E. unfold idx_ok. rewrite (dims_length _ _ E). apply forallb_eq. intros sm _. f_equal.
+  apply forallb_eq. intros k _. now rewrite (cn_nth_dims Y Y' k E).
+Qed.
+Lemma idx_ok_wfS Sm (Y : list (core T)) : idx_ok Sm Y = true -> wfS (length Y) Sm.
+Proof.
+  unfold idx_ok, wfS. rewrite forallb_forall, Forall_forall. intros H sm Hin. specialize (H sm Hin).
+  apply andb_true_iff in H. destruct H as [H _]. now apply Nat.eqb_eq in H.
+Qed.
+
+(* als_restart: nswp = a + b equals nswp = a, then a fresh call on the result with nswp = b *)
+Lemma als_restart Sm Y0 a b lamb skip fuel Ya ia :
+  cb = None -> chain 1 Y0 1 -> 1 <= a -> 1 <= b -> a + b <= fuel ->
+  als' Sm Y0 (Some a) None None lamb skip fuel = Ok (Ya, ia) ->
+  exists Yab i1 i2, als' Sm Y0 (Some (a + b)) None None lamb skip fuel = Ok (Yab, i1) /\
+                    als' Sm Ya (Some b) None None lamb skip fuel = Ok (Yab, i2) /\
+                    i_nswp ia = a /\ i_nswp i1 = a + b /\ i_nswp i2 = b.
+Proof.
+  intros Ec C A1 B1 Hf H. destruct (als_ok_checks _ _ _ _ _ _ _ _ _ H) as [C1 C2].
+  destruct (als_nswp Sm Y0 a lamb skip fuel Ec C1 C2 ltac:(lia)) as (ec & ev & Ha). rewrite Ha in H.
+  replace (Nat.max 1 a) with a in H by lia. inversion H; subst Ya ia. clear H.
+  set (Ya := sY (Nat.iter a (sweep K solve lamb Sm) (init_st K Sm Y0))).
+  assert (D : map dims Ya = map dims Y0) by apply iter_sweep_dims.
+  assert (C1a : negb skip && negb (check_slices Sm Ya) = false) by now rewrite (check_slices_dims Sm _ _ D).
+  assert (C2a : idx_ok Sm Ya = true) by now rewrite (idx_ok_dims Sm _ _ D).
+  destruct (als_nswp Sm Y0 (a + b) lamb skip fuel Ec C1 C2 ltac:(lia)) as (ec1 & ev1 & Hab).
+  destruct (als_nswp Sm Ya b lamb skip fuel Ec C1a C2a ltac:(lia)) as (ec2 & ev2 & Hb).
+  replace (Nat.max 1 (a + b)) with (a + b) in Hab by lia. replace (Nat.max 1 b) with b in Hb by lia.
+  eexists; eexists; eexists. split; [exact Hab|]. split.
+  - rewrite Hb. f_equal. f_equal. symmetry. apply sweeps_restart; auto. now apply idx_ok_wfS.
+  - cbn. auto.
+Qed.
+
+(* als_perm: the whole result (cores and info) does not depend on the order of the training samples *)
+Hypothesis Rth : rng K.
+Lemma check_slices_perm Sm Sm' (Y0 : list (core T)) : Permutation Sm Sm' -> check_slices Sm Y0 = check_slices Sm' Y0.
+Proof.
+  intros P. unfold check_slices. induction (seq 0 (length Y0)) as [|k l IH]; cbn [forallb]; auto. rewrite IH. f_equal.
+  f_equal. apply nodup_perm_length. unfold column. now apply Permutation_map.
+Qed.
+Lemma wfS_perm d Sm Sm' : Permutation Sm Sm' -> wfS (T:=T) d Sm -> wfS d Sm'.
+Proof. unfold wfS. intros P. now apply Permutation_Forall. Qed.
+Lemma als_perm Sm Sm' Y0 nswp e evld lamb skip fuel :
+  chain 1 Y0 1 -> Permutation Sm Sm' ->
+  als' Sm Y0 nswp e evld lamb skip fuel = als' Sm' Y0 nswp e evld lamb skip fuel.
+Proof.
+  intros C P. unfold als, als_loop. rewrite <- (check_slices_perm Sm Sm' Y0 P).
+  unfold idx_ok at 2. rewrite <- (forallb_perm _ _ _ P). fold (idx_ok Sm Y0).
+  destruct (negb skip && negb (check_slices Sm Y0)); auto.
+  destruct (idx_ok Sm Y0) eqn:C2; cbn [negb]; auto.
+  pose proof (idx_ok_wfS _ _ C2) as W. pose proof (wfS_perm _ _ _ P W) as W'.
+  apply (gen_loop_sim K acc accv cb st st _ _ sY sY
+           (fun s1 s2 => Inv K Sm (length Y0) s1 O /\ Inv K Sm' (length Y0) s2 O /\ sY s1 = sY s2)).
+  - intros s1 s2 (_ & _ & E). exact E.
+  - intros s1 s2 (I1 & I2 & E).
+    destruct (sweep_sim K solve lamb Sm _ s1 W I1) as [E1 J1].
+    destruct (sweep_sim K solve lamb Sm' _ s2 W' I2) as [E2 J2].
+    split; [exact J1 | split; [exact J2 |]]. rewrite E1, E2, E. now apply ref_sweep_perm.
+  - split; [now apply init_inv | split; [now apply init_inv | reflexivity]].
 Qed.
 End Top.
